@@ -393,9 +393,14 @@ class FileStoreRequestTlv(FileStoreRequestBase, AbstractTlvBase):
 
     @classmethod
     def _set_fields(cls, instance: FileStoreRequestTlv, raw_data: bytes):
-        action_code, first_name, _, _, second_name = cls._common_unpacker(
+        action_code, first_name, _, idx, second_name = cls._common_unpacker(
             raw_bytes=raw_data
         )
+        if idx != len(raw_data):
+            raise ValueError(
+                f"filestore request value field has {len(raw_data) - idx} unexpected"
+                " trailing bytes"
+            )
         instance.action_code = action_code
         instance.first_file_name = first_name
         if second_name is not None:
@@ -490,6 +495,10 @@ class FileStoreResponseTlv(FileStoreRequestBase, AbstractTlvBase):
         if second_name is not None:
             instance.second_file_name = second_name
         instance.filestore_msg = CfdpLv.unpack(data[idx:])
+        if idx + instance.filestore_msg.packet_len != len(data):
+            raise ValueError(
+                "filestore response value field has unexpected trailing bytes"
+            )
 
 
 class EntityIdTlv(AbstractTlvBase):
